@@ -37,13 +37,14 @@ func poolByName(n string) (Pool, bool) {
 
 // gw is a world under construction: operations carry absolute times and are turned into ticks at the end.
 type gw struct {
-	W      World
-	nodes  []*SNode
-	F      int64 // the instant at which candidates are computed
-	events []ev
-	seq    int
-	npods  int
-	npdbs  int
+	W       World
+	poolTGP map[string]int64 // pool template TGP, set independently of the claims' TGP
+	nodes   []*SNode
+	F       int64 // the instant at which candidates are computed
+	events  []ev
+	seq     int
+	npods   int
+	npdbs   int
 }
 
 type ev struct {
@@ -61,6 +62,13 @@ func (g *gw) at(t int64, kind, id string) {
 	}
 	g.seq++
 	g.events = append(g.events, ev{t, g.seq, Op{Kind: kind, ID: id}})
+}
+
+func (g *gw) setPoolTGP(pool string, v int64) {
+	if g.poolTGP == nil {
+		g.poolTGP = map[string]int64{}
+	}
+	g.poolTGP[pool] = v
 }
 
 func (g *gw) window() int64 { return max(2*g.W.BM, 10*sec) }
@@ -101,6 +109,9 @@ func (g *gw) finish() World {
 	g.W.Pools = nil
 	for _, p := range allPools {
 		if need[p.Name] {
+			if v, ok := g.poolTGP[p.Name]; ok {
+				p.TGP = ip(v)
+			}
 			g.W.Pools = append(g.W.Pools, p)
 		}
 	}
@@ -275,6 +286,16 @@ func perts() []pert {
 	add("consolidatable-absent", "cond", func(g *gw, n *SNode) { n.Claim.Consolidatable = nil })
 	add("drifted-absent", "cond", func(g *gw, n *SNode) { n.Claim.Drifted = nil })
 	add("tgp", "tgp", func(g *gw, n *SNode) { n.Claim.TGP = true })
+	// the pool template's TGP must not count: only the NodeClaim's own TGP may override pod-level blockers
+	poolOf := func(n *SNode) string {
+		if n.Node != nil && n.Node.Labels["reg"] == "true" {
+			return n.Node.Labels["np"]
+		}
+		return n.Claim.Labels["np"]
+	}
+	add("pool-tgp-only", "pool-tgp", func(g *gw, n *SNode) { g.setPoolTGP(poolOf(n), 600*sec) })
+	add("pool-tgp-same-as-claim", "pool-tgp", func(g *gw, n *SNode) { g.setPoolTGP(poolOf(n), 300*sec); n.Claim.TGP = true })
+	add("pool-tgp-differs-from-claim", "pool-tgp", func(g *gw, n *SNode) { g.setPoolTGP(poolOf(n), 600*sec); n.Claim.TGP = true })
 	add("buffer-1", "buffer", func(g *gw, n *SNode) { n.Buffer = 1 })
 	add("buffer-3", "buffer", func(g *gw, n *SNode) { n.Buffer = 3 })
 
@@ -358,9 +379,15 @@ func perts() []pert {
 		g.pdbFor(*p, 1).Always = true
 		p.Conds = [][2]string{{"Ready", "False"}}
 	})
-	addPod("pdb-0-always-readyfalse", "pdb", func(g *gw, n *SNode, p *Pod) { g.pdbFor(*p, 0).Always = true; p.Conds = [][2]string{{"Ready", "False"}} })
+	addPod("pdb-0-always-readyfalse", "pdb", func(g *gw, n *SNode, p *Pod) {
+		g.pdbFor(*p, 0).Always = true
+		p.Conds = [][2]string{{"Ready", "False"}}
+	})
 	addPod("pdb-0-always-readytrue", "pdb", func(g *gw, n *SNode, p *Pod) { g.pdbFor(*p, 0).Always = true; p.Conds = [][2]string{{"Ready", "True"}} })
-	addPod("pdb-0-always-readyunknown", "pdb", func(g *gw, n *SNode, p *Pod) { g.pdbFor(*p, 0).Always = true; p.Conds = [][2]string{{"Ready", "Unknown"}} })
+	addPod("pdb-0-always-readyunknown", "pdb", func(g *gw, n *SNode, p *Pod) {
+		g.pdbFor(*p, 0).Always = true
+		p.Conds = [][2]string{{"Ready", "Unknown"}}
+	})
 	addPod("pdb-0-always-nocond", "pdb", func(g *gw, n *SNode, p *Pod) { g.pdbFor(*p, 0).Always = true })
 	addPod("pdb-0-always-otherfalse", "pdb", func(g *gw, n *SNode, p *Pod) {
 		g.pdbFor(*p, 0).Always = true
@@ -368,13 +395,25 @@ func perts() []pert {
 	})
 	addPod("pdb-0-ifhealthy-readyfalse", "pdb", func(g *gw, n *SNode, p *Pod) { g.pdbFor(*p, 0); p.Conds = [][2]string{{"Ready", "False"}} })
 	addPod("pdb-0-tol-exists-all", "pdb", func(g *gw, n *SNode, p *Pod) { g.pdbFor(*p, 0); p.Tols = []Tol{{Op: "Exists"}} })
-	addPod("pdb-0-tol-key", "pdb", func(g *gw, n *SNode, p *Pod) { g.pdbFor(*p, 0); p.Tols = []Tol{{Key: "disrupted", Op: "Exists", Effect: "NoSchedule"}} })
+	addPod("pdb-0-tol-key", "pdb", func(g *gw, n *SNode, p *Pod) {
+		g.pdbFor(*p, 0)
+		p.Tols = []Tol{{Key: "disrupted", Op: "Exists", Effect: "NoSchedule"}}
+	})
 	addPod("pdb-0-tol-equal-empty", "pdb", func(g *gw, n *SNode, p *Pod) { g.pdbFor(*p, 0); p.Tols = []Tol{{Key: "disrupted", Op: "Equal"}} })
 	addPod("pdb-0-tol-noop-empty", "pdb", func(g *gw, n *SNode, p *Pod) { g.pdbFor(*p, 0); p.Tols = []Tol{{Key: "disrupted"}} })
-	addPod("pdb-0-tol-noexecute", "pdb", func(g *gw, n *SNode, p *Pod) { g.pdbFor(*p, 0); p.Tols = []Tol{{Key: "disrupted", Op: "Exists", Effect: "NoExecute"}} })
-	addPod("pdb-0-tol-value", "pdb", func(g *gw, n *SNode, p *Pod) { g.pdbFor(*p, 0); p.Tols = []Tol{{Key: "disrupted", Op: "Equal", Value: "x"}} })
+	addPod("pdb-0-tol-noexecute", "pdb", func(g *gw, n *SNode, p *Pod) {
+		g.pdbFor(*p, 0)
+		p.Tols = []Tol{{Key: "disrupted", Op: "Exists", Effect: "NoExecute"}}
+	})
+	addPod("pdb-0-tol-value", "pdb", func(g *gw, n *SNode, p *Pod) {
+		g.pdbFor(*p, 0)
+		p.Tols = []Tol{{Key: "disrupted", Op: "Equal", Value: "x"}}
+	})
 	addPod("pdb-0-tol-otherkey", "pdb", func(g *gw, n *SNode, p *Pod) { g.pdbFor(*p, 0); p.Tols = []Tol{{Key: "other", Op: "Exists"}} })
-	addPod("pdb-0-tol-lt", "pdb", func(g *gw, n *SNode, p *Pod) { g.pdbFor(*p, 0); p.Tols = []Tol{{Key: "disrupted", Op: "Lt", Value: "5"}} })
+	addPod("pdb-0-tol-lt", "pdb", func(g *gw, n *SNode, p *Pod) {
+		g.pdbFor(*p, 0)
+		p.Tols = []Tol{{Key: "disrupted", Op: "Lt", Value: "5"}}
+	})
 	addPod("pdb-0-tol-two", "pdb", func(g *gw, n *SNode, p *Pod) {
 		g.pdbFor(*p, 0)
 		p.Tols = []Tol{{Key: "other", Op: "Exists"}, {Key: "disrupted", Op: "Exists"}}
